@@ -1874,6 +1874,14 @@ func (s *BgpServer) handleFSMMessage(peer *peer, e *fsmMsg) {
 				peer.fsm.gConf.Config.RouterId, conf.Transport.State.RemoteAddress, conf.Transport.State.LocalAddress)
 			peer.peerInfo.Store(peerInfo)
 
+			// Publish the up state before the initial table transfer, like the down
+			// state is published before the advertised-route state is cleared: the FSM
+			// goroutine stores it only after this callback has returned, and a route
+			// change that is fanned out in between - after the transfer has read its
+			// destination and before the store - would find the peer "not established"
+			// and never reach it.
+			peer.fsm.state.Store(nextState)
+
 			neighborAddress := conf.State.NeighborAddress
 			deferralExpiredFunc := func(family bgp.Family, deferralTime time.Duration) func() {
 				//nolint: errcheck // ignore error
